@@ -88,11 +88,12 @@ fn main() {
                         cases.push(g::gen_body(&mut rng, true, false))
                     }),
                     "bigunread" => (0..n).for_each(|i| cases.push(g::gen_big_unread(&mut rng, i))),
+                    "sweep" => (0..n).for_each(|i| cases.push(g::gen_c02_sweep(&mut rng, i))),
                     "long" => (0..n).for_each(|i| cases.push(g::gen_long(&mut rng, i))),
                     "hold" => (0..n).for_each(|_| cases.push(g::gen_hold(&mut rng))),
                     "respfail" => (0..n).for_each(|_| cases.push(g::gen_respfail(&mut rng))),
                     "badhold" => (0..n).for_each(|i| cases.push(g::gen_bad_expect_hold(&mut rng, i % 3))),
-                    "c12" => (0..n).for_each(|i| cases.push(if i % 60 == 59 { g::gen_c12_stalled(&mut rng) } else { g::gen_c12(&mut rng) })),
+                    "c12" => (0..n).for_each(|i| cases.push(if i % 60 == 59 || i % 60 == 29 { g::gen_c12_stalled(&mut rng, i % 60 == 29) } else { g::gen_c12(&mut rng) })),
                     "c18" => (0..n).for_each(|_| cases.push(g::gen_c18(&mut rng))),
                     "mixed" => (0..n).for_each(|_| cases.push(g::gen_mixed(&mut rng))),
                     "c10" => {
